@@ -189,11 +189,13 @@ ParseBlockTok(p, tk) ==
         ELSE LET vis == {i \in 1..depth : /\ p.st[i].op \in {"for", "while"}
                                           /\ \A j \in (i + 1)..depth : p.st[j].op # "apply"}
                  good == {i \in vis : p.st[i].parts = <<>>}      \* loops whose body (not else part) we are in
-                 (* invalid Python: no binding loop; left open: the binding loop lies outside a named block
-                    (the block body may be generated elsewhere through inheritance) *)
-                 bad == \/ sfx # <<>> \/ good = {}
-                        \/ \E j \in (MaxS(good) + 1)..depth : p.st[j].op = "block"
-             IN AddNode(MarkUn(p, bad, "python"), [k |-> "brk", op |-> o])
+                 (* invalid Python: no binding loop *)
+                 bad == sfx # <<>> \/ good = {}
+                 (* the binding loop lies outside a named block: well-defined as long as the block is generated in
+                    place; Run leaves it open only when inheritance may place the block body elsewhere *)
+                 crossing == good # {} /\ \E j \in (MaxS(good) + 1)..depth : p.st[j].op = "block"
+                 q == IF crossing THEN [p EXCEPT !.xb = TRUE] ELSE p
+             IN AddNode(MarkUn(q, bad, "python"), [k |-> "brk", op |-> o])
     ELSE Err(p, span)
 
 ParseTok(p, tk) ==
@@ -209,14 +211,15 @@ ParseTok(p, tk) ==
 RootFrame == [op |-> "root", arg |-> "", sfx |-> <<>>, line |-> 0, parts |-> <<>>, hop |-> "root", harg |-> "",
               cur |-> <<>>, loop |-> FALSE, pend |-> 0]
 
-(* Parse(T, ws) = [ok, lines (acceptable ParseError lines), body, un, ae, soft]
+(* Parse(T, ws) = [ok, lines (acceptable ParseError lines), body, un, ae, soft, xb]
+   xb: some break / continue binds to a loop outside the named block it is written in
    soft: the error is raised at the end of the text (unterminated tag, missing end) - more text could repair it *)
 Parse(T, ws) ==
     LET lx == Lex(T)
-        p0 == [st |-> <<RootFrame>>, err |-> {}, un |-> "", ws |-> ws, ae |-> "unset", soft |-> FALSE]
+        p0 == [st |-> <<RootFrame>>, err |-> {}, un |-> "", ws |-> ws, ae |-> "unset", soft |-> FALSE, xb |-> FALSE]
         p1 == FoldLeft(ParseTok, p0, lx.tks)
         p == IF p1.err = {} /\ Len(p1.st) > 1 THEN [Err(p1, p1.st[2].line..lx.nlines) EXCEPT !.soft = TRUE] ELSE p1
-    IN [ok |-> p.err = {}, lines |-> p.err, body |-> p.st[1].cur, un |-> p.un, ae |-> p.ae, soft |-> p.soft]
+    IN [ok |-> p.err = {}, lines |-> p.err, body |-> p.st[1].cur, un |-> p.un, ae |-> p.ae, soft |-> p.soft, xb |-> p.xb]
 
 -----------------------------------------------------------------------------
 (* Layer 3: Eval *)
@@ -460,6 +463,9 @@ Run(src, cfg) ==
     ELSE IF \E f \in included : TopExtends(P[f]) # <<>> THEN [Res("unspec") EXCEPT !.why = "include-of-child"]
     ELSE IF \E f \in R4 : P[f].ae = "conflict" THEN [Res("unspec") EXCEPT !.why = "autoescape-conflict"]
     ELSE IF chainBad THEN [Res("unspec") EXCEPT !.why = "extends-chain"]
+    (* a child's block body with a break / continue bound outside the block is generated where the parent
+       places the block (possibly outside any loop: invalid Python) - left open only under inheritance *)
+    ELSE IF Len(c3) > 1 /\ \E f \in R4 : P[f].xb THEN [Res("unspec") EXCEPT !.why = "break-across-inherited-block"]
     ELSE IF \E i \in 1..Len(perFile) : ~NoDup(perFile[i]) THEN [Res("unspec") EXCEPT !.why = "duplicate-block"]
     ELSE LET fin == EvalSeq(C, P[root].body, st0) IN
          CASE fin.sig = "ok" -> [Res("ok") EXCEPT !.out = Utf8(Concat(fin.out)), !.segs = fin.out]
@@ -517,41 +523,48 @@ Family(f) ==
              3, {0}, {"xhtml_escape"}, {"all"}, {DefaultS}, <<>>)
       [] f = "control" ->   \* if / elif / else, for with break / continue / else
            F({"a", "e_x", "if_t", "if_x1", "elif_f", "else", "end", "for_x", "for_e", "break", "continue"},
+             3, {0}, {"xhtml_escape"}, {"all"}, {DefaultS}, <<>>)
+      [] f = "control4" ->  \* the core of "control" one token deeper
+           F({"e_x", "if_x1", "else", "end", "for_x", "break", "continue"},
              4, {0}, {"xhtml_escape"}, {"all"}, {DefaultS}, <<>>)
       [] f = "while" ->     \* while with a counter (prefix: set k = 0)
-           F({"e_k", "while_k", "set_kinc", "if_k1", "break", "continue", "else", "end"},
+           F({"e_k", "while_k", "set_kinc", "if_k1", "break", "continue", "end"},
              4, {0}, {"xhtml_escape"}, {"all"}, {DefaultS}, <<"set_k0">>)
       [] f = "try" ->       \* try / except / else / finally around a raising call
-           F({"a", "e_boom", "e_k", "try", "except", "except_zde", "except_ne", "else", "finally", "end"},
+           F({"e_boom", "e_k", "try", "except", "except_zde", "else", "finally", "end"},
              4, {0}, {"xhtml_escape"}, {"all"}, {DefaultS}, <<>>)
       [] f = "tryloop" ->   \* signals through finally inside a loop (prefix: for x in r, try)
-           F({"a", "e_x", "e_boom", "break", "continue", "except", "finally", "else", "end", "if_x1"},
+           F({"e_x", "e_boom", "break", "continue", "except", "finally", "else", "end"},
              3, {0}, {"xhtml_escape"}, {"all"}, {DefaultS}, <<"for_x", "try">>)
+      [] f = "blockloop" -> \* loop > named block > break / continue (prefix: for x in r, block p): generated in place
+           F({"a", "e_x", "if_x1", "break", "continue", "else", "end"},
+             3, {0}, {"xhtml_escape"}, {"all"}, {DefaultS}, <<"for_x", "block_p">>)
       [] f = "apply" ->     \* apply blocks: nested function, scoping, break across apply
-           F({"a", "e_s", "e_x", "raw_s", "apply_wrap", "apply_esc", "for_x", "for_y", "set_k0", "e_k", "break", "end", "e_boom"},
+           F({"a", "e_s", "e_x", "raw_s", "apply_wrap", "apply_esc", "for_x", "set_k0", "e_k", "break", "end"},
              3, {0}, {"xhtml_escape"}, {"all"}, {DefaultS}, <<>>)
       [] f = "loader" ->    \* extends / block / include through the loader, per-file settings
            F({"a", "e_s", "ext_base", "inc_inc", "inc_inc_sq", "inc_base", "block_p", "block_q", "end", "ae_none", "ae_x", "for_x",
               "ws_oneline", "sp_nl_sp"},
              2, {1, 2, 3, 4, 5}, AEboth, {"single"}, {DefaultS}, <<>>)
       [] f = "ws" ->        \* whitespace filtering per text node and whitespace directives
-           F({"a", "sp", "nl", "tab", "sp_nl_sp", "a_sp_sp_a", "cmt", "esc_expr", "e_n", "ws_all", "ws_single", "ws_oneline"},
+           F({"a", "sp", "nl", "tab", "sp_nl_sp", "a_sp_sp_a", "cmt", "esc_expr", "ws_single", "ws_oneline"},
              3, {0}, {"xhtml_escape"}, {"default", "oneline"}, {DefaultS}, <<>>)
       [] f = "errors" ->    \* ill-formed templates and the line of the ParseError
-           F({"nl", "a", "if_t", "for_x", "try", "end", "else", "except", "break", "bogus",
-              "empty_block", "e_empty", "cmt_open", "open_expr",
-              "apply_empty", "block_empty", "apply_wrap", "block_p", "ext_empty", "set_empty", "ae_empty", "ws_bogus",
-              "e_s_ml"},
+           F({"nl", "if_t", "for_x", "try", "end", "else", "break", "bogus",
+              "empty_block", "e_empty",
+              "apply_empty", "block_empty", "apply_wrap", "block_p", "set_empty", "ae_empty", "ws_bogus"},
              3, {0}, {"xhtml_escape"}, {"all"}, {DefaultS}, <<>>)
       [] f = "errors2" ->   \* further spellings of ill-formed tags (tight, multi-line, unterminated block tag)
            F({"nl", "a", "if_t", "for_x", "try", "end", "continue", "e_empty_tight", "empty_block_tight", "end_tight", "open_block",
-              "inc_empty", "e_s_ml", "close_expr", "close_block", "cmt_close", "elif_t", "finally", "bogus_arg", "if_t_ml"},
+              "inc_empty", "e_s_ml", "close_expr", "close_block", "cmt_close", "elif_t", "finally", "bogus_arg", "if_t_ml", "except",
+              "except_ne", "for_y", "ws_all", "e_n", "e_boom", "cmt_open", "open_expr", "ext_empty", "e_s_tight", "raw_o", "e_t",
+              "apply_wrap"},
              2, {0}, {"xhtml_escape"}, {"all"}, {DefaultS}, <<>>)
       [] f = "values" ->    \* C20: every value type / string through expression, raw, explicit escape under both settings
-           F({"e_s", "e_s_tight", "e_b", "e_n", "e_o", "e_t", "e_esc_s", "raw_s", "raw_b", "raw_o", "ae_none", "ae_x", "ae_empty"},
+           F({"e_s", "e_b", "e_n", "e_o", "e_esc_s", "raw_s", "raw_b", "ae_none", "ae_x", "ae_empty"},
              2, {0}, AEboth, {"all"}, AllS, <<>>)
       [] f = "escfiles" ->  \* C20: autoescape scoping across include / extends / apply
-           F({"e_s", "raw_s", "ae_none", "ae_x", "inc_inc", "ext_base", "block_p", "end", "apply_wrap", "apply_esc"},
+           F({"e_s", "raw_s", "ae_none", "ae_x", "inc_inc", "ext_base", "block_p", "end", "apply_esc"},
              3, {1, 2, 5}, AEboth, {"all"}, {DefaultS}, <<>>)
 
 InitWith(c, s) ==
